@@ -387,7 +387,7 @@ def makeField(domain, arr):
         return MultiField.from_raw(domain, arr)
     if np.isscalar(arr):
         domain = makeDomain(domain)
-        arr = np.broadcast_to(arr, domain.shape)
+        arr = AnyArray.full(domain.shape, arr)
     return Field.from_raw(domain, arr)
 
 
